@@ -109,7 +109,11 @@ impl Search {
     /// ```
     pub fn search(&mut self, evaluator: &impl Evaluator, max_depth: Option<Depth>) {
         // Uses a heuristic to determine the maximum time to spend on a move
+        #[cfg(rce_verif)]
+        crate::verif_hooks::sched("search:enter");
         self.start();
+        #[cfg(rce_verif)]
+        crate::verif_hooks::sched("search:armed");
 
         self.limits.time_management_timer = match self.board.current_turn {
             Color::White => {
@@ -154,9 +158,17 @@ impl Search {
 
             let pv = self.get_pv(depth);
             self.log_uci_info(depth, Some(start.elapsed().as_millis()), &pv);
+            #[cfg(rce_verif)]
+            if depth == 1 {
+                crate::verif_hooks::sched("search:iter1");
+            }
         }
 
+        #[cfg(rce_verif)]
+        crate::verif_hooks::sched("search:pre_best");
         self.log(format!("bestmove {}", self.info.best_move.unwrap()).as_str());
+        #[cfg(rce_verif)]
+        crate::verif_hooks::sched("search:post_best");
     }
 
     /// Initializes the alpha-beta search and returns the best move found
